@@ -685,6 +685,13 @@ impl ActivePeersInner {
         let peer_id = new_connection.peer_id();
         match self.connections.entry(peer_id) {
             Entry::Occupied(mut entry) => {
+                // A connection that has already ended (e.g. the remote hung up while we were
+                // still finishing its handshake) must never displace a live one.
+                if new_connection.is_closed() && !entry.get().is_closed() {
+                    debug!("dropping new connection with {peer_id:?}: it is already closed");
+                    return None;
+                }
+
                 if Self::simultaneous_dial_tie_breaking(
                     own_peer_id,
                     &peer_id,
